@@ -496,5 +496,16 @@ func importObligations(p *Prog, l *Ledger, from, as string, keep func(o *Obligat
 		n++
 		l.Add(as, o.Key, o.Anchor, o.Verdict, "["+from+"] "+o.Detail, o.Witness...)
 	}
+	// a rule of the imported property that lost its anchors produces nothing to import: that is an open obligation of the
+	// importer too (the imported property's own vacuity floor, for the rules this import keeps)
+	for r, floor := range nestedFloors(sub, rs.floors) {
+		if c := sub.CountRule(r); c < floor {
+			probe := &Obligation{Rule: r, Key: from + "/" + r + "/", Verdict: Undecided}
+			if keep == nil || keep(probe) {
+				n++
+				l.Add(as, from+"/"+r+"/vacuity", "", Undecided, fmt.Sprintf("[%s] rule %s/%s produced %d obligations, floor is %d: the constructs it reads are gone, so what it establishes is not established", from, from, r, c, floor))
+			}
+		}
+	}
 	return n
 }
